@@ -16,7 +16,11 @@ RULE = (
     "star-unpacking, tuple literals, params, hard and soft requirements, rebinding after require, objects on "
     "a grid with random collision flags and workspaces, 2D/3D); for each, ALL RNG outcomes of the real "
     "_generateInner(k) for k=1 (and k=2,3 when small) are enumerated with exact probabilities. Non-trivial = "
-    "the exact distribution has >= 2 outcomes; distinct = distinct (source text, k)."
+    "the exact distribution has >= 2 outcomes; distinct = distinct (source text, k). Second layer: ten programs over "
+    "continuous distributions (Range, Normal, TruncatedNormal, random endpoints, lifted sum, shared reference, "
+    "resample, hard / soft requirement, object position), 20 000 scenes each with fixed seeds: Kolmogorov-Smirnov "
+    "distance to the analytic CDF, exact equality of shared references, correlation of independent leaves and "
+    "acceptance rate, each at alpha = 1e-9."
 )
 ASSUMPTIONS = [
     "reference semantics in rt/gen_discrete.py (written from the documented prior: one draw per value per scene, all option expressions of a choice are drawn, resample = fresh draw given same parameter values)",
@@ -24,8 +28,8 @@ ASSUMPTIONS = [
     "unit boxes on a spacing-3 grid: overlap iff same cell; containment in the 8x8 workspace is definite",
 ]
 MIN_COUNTERS = {
-    "quick": {"programs_compared": 100, "rng_leaves": 3000, "with_rejection_mass": 20, "with_soft_requirements": 10, "k2_compared": 20},
-    "thorough": {"programs_compared": 2000, "rng_leaves": 60000, "with_rejection_mass": 400, "with_soft_requirements": 200, "k2_compared": 400},
+    "quick": {"programs_compared": 100, "rng_leaves": 3000, "with_rejection_mass": 20, "with_soft_requirements": 10, "k2_compared": 20, "stat_ks_tests": 12, "stat_scenes": 150000},
+    "thorough": {"programs_compared": 2000, "rng_leaves": 60000, "with_rejection_mass": 400, "with_soft_requirements": 200, "k2_compared": 400, "stat_ks_tests": 12, "stat_scenes": 150000},
 }
 MANIFEST_ENTRY = {
     "technique": "runtime monitoring: exact RNG-branch enumeration of the real sampler vs an executable reference model (differential, exact rationals)",
@@ -37,10 +41,138 @@ MANIFEST_ENTRY = {
 def plan(tier, seed):
     n_prog = 220 if tier == "quick" else 4000
     n_sh = 16 if tier == "quick" else 64
-    return [
+    shards = [
         {"shard": i, "nshards": n_sh, "programs": n_prog // n_sh, "timeout": 1500 if tier == "quick" else 3400}
         for i in range(n_sh)
     ]
+    # second layer: continuous distributions, decided statistically (fixed seeds, alpha = 1e-9 per test)
+    shards += [{"shard": 1000 + i, "stat": True, "case": i, "timeout": 3400} for i in range(len(STAT_CASES))]
+    return shards
+
+
+# ---- statistical layer (thorough only) -----------------------------------------------------------------------
+import math
+
+
+def _phi(x):
+    return 0.5 * (1 + math.erf(x / math.sqrt(2)))
+
+
+def _cdf_uniform(a, b):
+    return lambda x: min(1.0, max(0.0, (x - a) / (b - a)))
+
+
+def _cdf_normal(m, s):
+    return lambda x: _phi((x - m) / s)
+
+
+def _cdf_truncnormal(m, s, lo, hi):
+    a, b = _phi((lo - m) / s), _phi((hi - m) / s)
+    return lambda x: min(1.0, max(0.0, (_phi((x - m) / s) - a) / (b - a)))
+
+
+def _cdf_range_random_end(x):
+    # Y = Range(0, X), X = Range(1, 2)
+    if x <= 0:
+        return 0.0
+    if x <= 1:
+        return x * math.log(2)
+    if x >= 2:
+        return 1.0
+    return (x - 1) + x * math.log(2 / x)
+
+
+def _cdf_sum_uniform(x):
+    # U(0,1) + U(0,1)
+    if x <= 0:
+        return 0.0
+    if x <= 1:
+        return x * x / 2
+    if x >= 2:
+        return 1.0
+    return 1 - (2 - x) ** 2 / 2
+
+
+# (name, program, {param: cdf}, equal pairs, independent pairs, acceptance probability per attempt or None)
+STAT_CASES = [
+    ("range", "param a = Range(2, 5)\nparam b = Range(-1, 1)\n", {"a": _cdf_uniform(2, 5), "b": _cdf_uniform(-1, 1)}, [], [("a", "b")], None),
+    ("normal", "param a = Normal(1, 2)\nparam b = Normal(-3, 0.5)\n", {"a": _cdf_normal(1, 2), "b": _cdf_normal(-3, 0.5)}, [], [("a", "b")], None),
+    ("truncnormal", "param a = TruncatedNormal(0, 1, -0.5, 2)\n", {"a": _cdf_truncnormal(0, 1, -0.5, 2)}, [], [], None),
+    ("shared", "x = Range(0, 1)\nparam a = x\nparam b = x\nparam c = Range(0, 1)\n", {"a": _cdf_uniform(0, 1), "c": _cdf_uniform(0, 1)}, [("a", "b")], [("a", "c")], None),
+    ("resample", "x = Range(0, 1)\nparam a = x\nparam b = resample(x)\n", {"a": _cdf_uniform(0, 1), "b": _cdf_uniform(0, 1)}, [], [("a", "b")], None),
+    ("random-endpoint", "x = Range(1, 2)\nparam a = Range(0, x)\n", {"a": _cdf_range_random_end}, [], [], None),
+    ("lifted-sum", "param a = Range(0, 1) + Range(0, 1)\n", {"a": _cdf_sum_uniform}, [], [], None),
+    ("conditioned", "x = Range(0, 1)\nrequire x > 0.3\nparam a = x\nparam b = Range(0, 1)\n", {"a": _cdf_uniform(0.3, 1), "b": _cdf_uniform(0, 1)}, [], [("a", "b")], 0.7),
+    ("soft", "x = Range(0, 1)\nrequire[0.5] x > 0.5\nparam a = x\n", {"a": (lambda v: (0.5 * min(1, max(0, v)) + 0.5 * min(1.0, max(0.0, (v - 0.5) / 0.5))) if False else None)}, [], [], None),
+    ("object-position", "ego = new Object at (Range(0, 10), Range(0, 10))\nparam a = ego.position.x\nparam b = ego.position.y\n", {"a": _cdf_uniform(0, 10), "b": _cdf_uniform(0, 10)}, [], [("a", "b")], None),
+]
+
+
+def _soft_cdf(v):
+    # mixture over the soft requirement being enforced (prob 1/2 per generate call):
+    # enforced -> U(0.5, 1); not enforced -> U(0, 1)
+    u = min(1.0, max(0.0, v))
+    c = min(1.0, max(0.0, (v - 0.5) / 0.5))
+    return 0.5 * u + 0.5 * c
+
+
+STAT_CASES[8] = ("soft", STAT_CASES[8][1], {"a": _soft_cdf}, [], [], None)
+
+
+def run_stat_shard(spec):
+    import scenic
+    from rt import su
+
+    name, src, cdfs, equal, indep, pacc = STAT_CASES[spec["case"]]
+    res = {"evaluations": 0, "nontrivial": [], "counters": {}, "samples": [], "violations": [], "skipped": {}}
+    C = res["counters"]
+    N = 20000
+    scenario = scenic.scenarioFromString(src)
+    su.seed_all(1000 + spec["seed"] * 97 + spec["case"])
+    vals = {}
+    its = 0
+    for _ in range(N):
+        scene, k = scenario.generate(maxIterations=1000)
+        its += k
+        for p, v in scene.params.items():
+            vals.setdefault(p, []).append(float(v))
+    res["evaluations"] = N
+    C["stat_scenes"] = N
+    C["stat_cases"] = 1
+    crit = math.sqrt(-0.5 * math.log(1e-9 / 2)) / math.sqrt(N)  # Kolmogorov bound for alpha = 1e-9
+    for p, cdf in cdfs.items():
+        xs = sorted(vals[p])
+        d = 0.0
+        for i, x in enumerate(xs):
+            f = cdf(x)
+            d = max(d, abs(f - i / N), abs(f - (i + 1) / N))
+        C["stat_ks_tests"] = C.get("stat_ks_tests", 0) + 1
+        if d > crit:
+            res["violations"].append({"key": None, "what": f"[statistical:{name}] KS distance of param {p} from the analytic CDF is {d:.4f} > {crit:.4f} (N={N}, alpha=1e-9)", "witness": {"stat_case": spec["case"]}})
+    for a, b in equal:
+        C["stat_equalities"] = C.get("stat_equalities", 0) + 1
+        if vals[a] != vals[b]:
+            res["violations"].append({"key": None, "what": f"[statistical:{name}] params {a} and {b} refer to the same random value but differ in some scene", "witness": {"stat_case": spec["case"]}})
+    for a, b in indep:
+        xa, xb = vals[a], vals[b]
+        ma, mb = sum(xa) / N, sum(xb) / N
+        cov = sum((x - ma) * (y - mb) for x, y in zip(xa, xb)) / N
+        sa = math.sqrt(sum((x - ma) ** 2 for x in xa) / N)
+        sb = math.sqrt(sum((y - mb) ** 2 for y in xb) / N)
+        r = cov / (sa * sb)
+        C["stat_independence_tests"] = C.get("stat_independence_tests", 0) + 1
+        if abs(r) > 6.2 / math.sqrt(N):
+            res["violations"].append({"key": None, "what": f"[statistical:{name}] params {a} and {b} should be independent but have correlation {r:.4f} (bound {6.2 / math.sqrt(N):.4f})", "witness": {"stat_case": spec["case"]}})
+    if pacc is not None:
+        # total attempts for N scenes ~ N / pacc ; z-test on the acceptance rate
+        n_att = its
+        phat = N / n_att
+        z = (phat - pacc) / math.sqrt(pacc * (1 - pacc) / n_att)
+        C["stat_rate_tests"] = C.get("stat_rate_tests", 0) + 1
+        if abs(z) > 6.2:
+            res["violations"].append({"key": None, "what": f"[statistical:{name}] acceptance rate {phat:.4f} differs from {pacc} (z={z:.1f})", "witness": {"stat_case": spec["case"]}})
+    res["nontrivial"].append(su.h(["stat", name]))
+    return res
 
 
 def _canon(v):
@@ -162,6 +294,9 @@ def _run_program(prog, res, bump, tier):
 def run_shard(spec):
     from rt import gen_discrete, su
 
+    if spec.get("stat"):
+        return run_stat_shard(spec)
+
     res = {"evaluations": 0, "nontrivial": [], "counters": {}, "samples": [], "violations": [], "skipped": {}}
     C = res["counters"]
 
@@ -188,6 +323,9 @@ def run_shard(spec):
 
 def replay(w):
     from rt import gen_discrete
+
+    if "stat_case" in w:
+        return run_stat_shard({"case": w["stat_case"], "seed": 0, "stat": True})["violations"]
 
     res = {"evaluations": 0, "counters": {}, "skipped": {}}
     rng = random.Random(w["pseed"])
